@@ -10,6 +10,7 @@ mod eval;
 mod gen;
 mod model;
 mod props;
+mod qgen;
 mod runner;
 
 use std::collections::BTreeMap;
